@@ -437,6 +437,11 @@ pub fn parse_choice_text(input: &str) -> Result<ParsedChoiceText, CompilerError>
         let start = &trimmed[..open];
         let choice_only = trimmed[open + 1..close].trim();
         let end = trimmed[close + 1..].trim_start();
+        // `text -> target` on the choice line: the text keeps its trailing space
+        // and is not followed by a line break, so the target's content joins it.
+        let had_space_before_inline_divert = split_inline_divert(end)
+            .and_then(|(text, _)| text.chars().last())
+            .is_some_and(char::is_whitespace);
         let (end, inline_target) = split_inline_choice_divert(end)?;
         let (start_text, start_tags) = split_text_and_tags(start)?;
         let (choice_only_text, choice_only_tags) = split_text_and_tags(choice_only)?;
@@ -465,6 +470,14 @@ pub fn parse_choice_text(input: &str) -> Result<ParsedChoiceText, CompilerError>
             format!("{}{}", start_text.trim_end(), end_text)
         } else {
             format!("{} {}", start_text.trim_end(), end_text)
+        };
+        let selected_text = if inline_target.is_some()
+            && had_space_before_inline_divert
+            && !selected_text.is_empty()
+        {
+            format!("{selected_text} ")
+        } else {
+            selected_text
         };
         let mut selected_tags = start_tags.clone();
         selected_tags.extend(end_tags);
